@@ -212,6 +212,16 @@ Fixpoint wf (m : list (Z * Z)) (prog : list s_op) : bool :=
                && wf (spec_m m op) t
   end.
 
+(* ---- the storage calls a DictCache issues: the in-memory storage with a log of the calls *)
+Definition log_storage : storage_ops (list (Z * Z) * list s_op) :=
+  mkSOps (fun s k => ((fst s, snd s ++ [SLoad k]), d_get k (fst s)))
+         (fun s k v => (d_set k v (fst s), snd s ++ [SSave k v]))
+         (fun s k => (d_del k (fst s), snd s ++ [SDelete k]))
+         (fun s k => (fst s, snd s ++ [SPreload k])).
+
+Definition calls_of (ops : list c_op) : list s_op :=
+  snd (c_store (fst (c_run log_storage (c_empty ([], [])) ops))).
+
 (* does the operation change what is stored under k *)
 Definition s_writes (k : Z) (op : s_op) : bool :=
   match op with SSave k' _ => k' =? k | SDelete k' => k' =? k | _ => false end.
